@@ -6,7 +6,7 @@ PROPS = ["Props/C10.v"]
 
 def run(ctx):
     schedcheck.run(ctx, "C10", PROPS,
-                   [("trees", 200, 2000), ("mstrees", 80, 800), ("deps", 60, 600), ("coredeps", 60, 500), ("alap", 40, 300), ("alapcore", 60, 500)],
+                   [("trees", 200, 2000), ("mstrees", 80, 800), ("deps", 60, 600), ("coredeps", 60, 500), ("alap", 40, 300), ("alapcore", 60, 500), ("wintrees", 100, 800)],
                    ["c10", "c01"],
                    ["checked for scenario 0 here; other scenarios are covered by C16"],
-                   "corpus first; random task trees of depth <= 4 with unschedulable leaves (resource on permanent leave), milestones with own dates, dated containers, dependencies on containers")
+                   "corpus first; random task trees of depth <= 4 with unschedulable leaves (resource on permanent leave), milestones with own dates, dated containers, containers with a start and an end of their own above unschedulable leaves, dependencies on containers")
